@@ -70,6 +70,18 @@ pub fn replay(cases: &str, verdicts: &str, table: &str) {
         // table row of the kind: density, mean and variance are those of the freshly constructed object
         for other in rows.iter().filter(|r| r["kind"] == c["kind"] && r["p"] != c["p"]) {
             let q0 = ints(&other["p"]);
+            // two objects of the kind evaluated side by side (this row's, the other row's, alternately at the same points): each answers as
+            // if it were alone - the reference sweep of the other object is taken in a thread of its own
+            {
+                let xs: Vec<f64> = pts.iter().take(14).map(|p| p["xn"].as_i64().unwrap() as f64 / p["xd"].as_i64().unwrap() as f64).collect();
+                let (k2, p2, xs2) = (kind.to_string(), params_of(kind, &q0), xs.clone());
+                let alone = std::thread::spawn(move || D::new(&k2, &p2).map(|o| xs2.iter().map(|x| o.pf(*x)).collect::<Vec<Option<f64>>>())).join().ok().flatten();
+                if let (Some(alone), Some(o0)) = (alone, D::new(kind, &params_of(kind, &q0))) {
+                    let side: Vec<Option<f64>> = xs.iter().map(|x| { let _ = d.pf(*x); o0.pf(*x) }).collect();
+                    let same = side.iter().zip(&alone).all(|(a, b)| match (a, b) { (Some(a), Some(b)) => a.to_bits() == b.to_bits() || (a.is_nan() && b.is_nan()), (None, None) => true, _ => false });
+                    v.check(same, kind, "density evaluated side by side with another object", &json!({"kind": kind, "this": q, "other": q0}), json!({"side_by_side": side.iter().map(|g| g.map(fj)).collect::<Vec<_>>(), "alone": alone.iter().map(|g| g.map(fj)).collect::<Vec<_>>()}));
+                }
+            }
             for via in ["update", "setters"] {
                 let mut o = match D::new(kind, &params_of(kind, &q0)) { Some(o) => o, None => continue };
                 let reached = if via == "update" { o.update(&params) } else {
